@@ -30,6 +30,10 @@ PLANTS = [
     ('unknown primary unit (instantiation)', 'tree.vhd', 'direct : entity work.leaf(rtl)', 'direct : entity work.lea§(rtl)', 'lea§'),
     ('unknown port association', 'tree.vhd', 'port map (a => x, y => t);', 'port map (a => x, y§ => t);', 'y§'),
     ('unknown generic association', 'tree.vhd', 'generic map (w => 4) port map (a => x, y => t);', 'generic map (w§ => 4) port map (a => x, y => t);', 'w§'),
+    ('undeclared name (actual of an overloaded call)', 'shape.vhd', 'o <= add(v.x, k);', 'o <= add(v.x, k§);', 'k§'),
+    ('undeclared name (inside a generate statement)', 'tree.vhd', 'port map (a => x(2 * i + 1 downto 2 * i), y => z(i));', 'port map (a => x(2 * i + 1 downto 2 * i), y => z§(i));', 'z§'),
+    ('missing port association (no port map at all)', 'tree.vhd', 'direct : entity work.leaf(rtl) generic map (w => 4) port map (a => x, y => t);', 'direct : entity work.leaf(rtl) generic map (w => 4);', 'work.leaf'),
+    ('missing port association', 'tree.vhd', 'direct : entity work.leaf(rtl) generic map (w => 4) port map (a => x, y => t);', 'direct : entity work.leaf(rtl) generic map (w => 4) port map (y => t);', 'work.leaf'),
     ('signal assignment to a variable', 'shape.vhd', 'v := p + q;', 'v <= p + q;', 'v'),
     ('variable assignment to a signal', 'shape.vhd', 'acc(i) <= i;', 'acc(i) := i;', 'acc'),
 ]
@@ -163,7 +167,7 @@ class C06(Check):
         return ps
 
     def assumptions(self):
-        return ['the family: one fixed valid project, the listed 19 plant sites (at least one per fault class of the catalogue except "missing association", whose planted token is not defined); other programs, other sites and several faults at once are outside',
+        return ['the family: one fixed valid project, the listed 23 plant sites (at least one per fault class of the catalogue; for a missing association the planted token is the instantiated unit name, where the diagnostic is expected); other programs, other sites and several faults at once are outside',
                 'error severity = every error code except the five the default severity map makes warnings and the `Related` hint',
                 'bundled std library; FnvHashMap modelled insertion ordered; rayon sequential']
 
